@@ -161,7 +161,9 @@ def Cur.signal (c : Cur) : Signal × Cur :=
   let (b, c) := c.nat
   let (t, c) := c.next
   let (d, c) := c.next
-  let typ : SigType := if t == "I" then .input (parseInVal d) else if t == "B" then .bidir (parseInVal d) else .output
+  -- "V": an entry of a driver answer for one of the test's own declared signals; resolved against the bound test
+  let typ : SigType := if t == "I" then .input (parseInVal d) else if t == "B" then .bidir (parseInVal d)
+    else if t == "V" then .virt (.num 0) else .output
   ({ name := unhex n, bits := b, typ := typ }, c)
 
 def Cur.many {α} (c : Cur) (n : Nat) (f : Cur → α × Cur) : List α × Cur :=
@@ -298,6 +300,14 @@ def cmdRun (c : Cur) : Array String := Id.run do
     | .panic m => out := out.push ("bind panic " ++ m)
     | .ok tc =>
       out := out.push ("bind ok " ++ dumpTestCase tc)
+      -- answers that carry entries for the test's own virtual signals: put the real signal in
+      let script := script.map (fun r => match r with
+        | .ok outs => DrvResp.ok (outs.map (fun (sg, v) => match sg.typ with
+            | .virt _ => (match tc.signals.find? (fun x => x.name == sg.name && x.isVirtual) with
+                | some x => (x, v)
+                | none => (sg, v))
+            | _ => (sg, v)))
+        | r => r)
       let rng := rngOfTable (rngTable epochs)
       let drv := scriptDriver (ownWo == 1)
       if doStatic == 1 then
